@@ -74,6 +74,7 @@ type FT struct {
 	stateNow *State
 	afterLock *State
 	dynSelf   *SpecVal
+	nonFresh  map[string]bool
 }
 
 func (ft *FT) note(s string) { ft.notes[s] = true }
@@ -119,8 +120,11 @@ func (ft *FT) oblige(kind string, pos token.Pos, text string, guard, goal Term, 
 		// trivially discharged; still recorded
 	}
 	ft.obls = append(ft.obls, o)
-	// assert-then-assume
-	ft.assume(guard, goal)
+	// assert-then-assume; an obligation recorded as a known finding is known NOT to hold, so assuming
+	// it would make everything after it vacuous and hide other violations
+	if !ft.eng.known[name] {
+		ft.assume(guard, goal)
+	}
 	return o
 }
 
@@ -507,13 +511,21 @@ func (ft *FT) writtenKeys(blocks map[*ssa.BasicBlock]bool) (map[string]bool, boo
 		for _, ins := range b.Instrs {
 			switch x := ins.(type) {
 			case *ssa.Store:
+				fresh := storeRootFreshIn(x.Addr, blocks)
 				for _, k := range ft.keysOfAddr(x.Addr) {
 					keys[k] = true
+					if !fresh {
+						ft.nonFresh[k] = true
+					}
 				}
 			case *ssa.MapUpdate:
 				mt := x.Map.Type().Underlying().(*types.Map)
+				mm, isFresh := x.Map.(*ssa.MakeMap)
 				for _, k := range ft.mapKeys(mt) {
 					keys[k] = true
+					if !(isFresh && blocks[mm.Block()]) {
+						ft.nonFresh[k] = true
+					}
 				}
 			case *ssa.Alloc, *ssa.MakeMap, *ssa.MakeSlice, *ssa.MakeChan, *ssa.MakeClosure:
 				keys["$next"] = true
@@ -548,11 +560,33 @@ func (ft *FT) writtenKeys(blocks map[*ssa.BasicBlock]bool) (map[string]bool, boo
 				}
 				for _, k := range ks {
 					keys[k] = true
+					if k != "$next" {
+						ft.nonFresh[k] = true
+					}
 				}
 			}
 		}
 	}
 	return keys, all
+}
+
+// storeRootFreshIn: the store goes into an object allocated inside the given blocks (e.g. the
+// array that packages variadic arguments), so it cannot affect memory that existed before them.
+func storeRootFreshIn(addr ssa.Value, blocks map[*ssa.BasicBlock]bool) bool {
+	for {
+		switch a := addr.(type) {
+		case *ssa.FieldAddr:
+			addr = a.X
+		case *ssa.IndexAddr:
+			addr = a.X
+		case *ssa.Alloc:
+			return blocks[a.Block()]
+		case *ssa.MakeSlice:
+			return blocks[a.Block()]
+		default:
+			return false
+		}
+	}
 }
 
 func (ft *FT) visKey(r *ssa.Range) string {
@@ -867,7 +901,9 @@ func (ft *FT) loopHead(li *loopInfo, st *State, guard Term, phiVals map[*ssa.Phi
 		}
 	}
 	// havoc
+	ft.nonFresh = map[string]bool{}
 	li.wkeys, li.wall = ft.writtenKeys(li.body)
+	nonFresh := ft.nonFresh
 	hs := st.clone()
 	if li.wall {
 		ft.havocAll(hs)
@@ -877,7 +913,13 @@ func (ft *FT) loopHead(li *loopInfo, st *State, guard Term, phiVals map[*ssa.Phi
 			if ft.heaps[k] == nil {
 				continue
 			}
-			ft.freshVersion(hs, k)
+			old := ft.get(hs, k)
+			nv := ft.freshVersion(hs, k)
+			if !nonFresh[k] && strings.HasPrefix(ft.heaps[k].sort, "(Array Int ") && !privateKey(k) {
+				// every write to k inside the loop goes to an object allocated inside the loop:
+				// memory that existed at loop entry is untouched
+				ft.assume("true", forall([][2]string{{"r", "Int"}}, "(! "+implies(app("<", "r", nextOld), eq(app("select", nv, "r"), app("select", old, "r")))+" :pattern ((select "+nv+" r)))"))
+			}
 		}
 		if li.wkeys["$next"] {
 			ft.assume("true", app("<=", nextOld, ft.get(hs, "$next")))
